@@ -27,7 +27,7 @@ class C11(EngineProp):
     level_note = 'Trusted: as C07; a cut while a user coroutine handler is suspended mid-await is represented only as "handler pending".'
     design_ref = '§5 C11'
     rule = ('as C07, with orderly EOF, transport error or explicit close() injected after 3..22 groups on any mix of pending interactions in both roles, followed by further '
-            'application activity; plus a real TransportTCP endpoint (either role) with 0..2 pending request-responses, stream subscriptions and suspended incoming handlers whose byte stream is cut after 0..40 bytes of a frame by EOF, ConnectionResetError or TimeoutError, or by the application's own close() of the live connection, with an on_close handler that may issue one more request (it must be failed when close() returns); then 0..2 request-responses / streams issued on the dead endpoint before the application calls close() (close() must fail them); non-trivial = at least one interaction pending at the moment of loss; distinct = distinct entry-point sequence')
+            'application activity; plus a real TransportTCP endpoint (either role) with 0..2 pending request-responses, stream subscriptions and suspended incoming handlers whose byte stream is cut after 0..40 bytes of a frame by EOF, ConnectionResetError or TimeoutError, or by the application\'s own close() of the live connection, with an on_close handler that may issue one more request (it must be failed when close() returns); then 0..2 request-responses / streams issued on the dead endpoint before the application calls close() (close() must fail them); non-trivial = at least one interaction pending at the moment of loss; distinct = distinct entry-point sequence')
     assumptions = ['application cancel()/on_close callbacks do not raise unless scripted to']
 
     # -- the byte-stream transport: the link is cut between any two bytes, by EOF or by a read error -------------------------
